@@ -52,7 +52,7 @@ def rs_script(hist):
     ops = []
     for tgt, v in hist:
         name = {"flag:C": "FC", "flag:Z": "FZ"}.get(tgt, tgt)
-        ops.append({"set": [name, v & 0xFFFFFFFF]})
+        ops.append({"set": [name, v & 0xFFFFFFFF], "via_pc_accessor": name == "PC" and (v & 1) == 1})
     ops.append({"readall": 1})
     ops.append({"snap": 1})
     return {"cmd": "regs", "script": ops}
@@ -100,6 +100,9 @@ def judge(hist, rs_out, vb: VB) -> Tuple:
             if reads[n] != want[n]:
                 vb.add(f"C08/rust-read/{n}/after-write-{last}",
                        f"rust: after {hist} reading {n} gives {reads[n]:#x}, expected {want[n]:#x} (python {py_reads[n]:#x})", wit)
+        if "PC_accessor" in reads and reads["PC_accessor"] != want["PC"]:
+            vb.add(f"C08/rust-pc-accessor/after-write-{last}", f"rust: after {hist} state.pc() gives {reads['PC_accessor']:#x}, get_reg(PC)/reference "
+                   f"{want['PC']:#x}", wit)
         for n in NAMES:
             if snap["fresh"][n] != want[n]:
                 vb.add(f"C08/rust-snapshot-roundtrip/{n}",
